@@ -238,6 +238,96 @@ Proof.
   apply rcp_safe_finite_sign_gen. intros a _ Ha. apply rcp_nosimd_finite_sign. exact Ha.
 Qed.
 
+(* ---- rcp_safe at ANY precision: rn monotone, odd, rn 0 = 0; tmin > 0 (numeric_limits<T>::min()).
+   The argument handed to rcp has magnitude >= tmin and the sign sense of x; the result is never of the
+   opposite sign to x and is bounded by rn(1/tmin) (finite in every IEEE format: 1/min is representable) *)
+Section AnyPrecisionProofs.
+  Variable rn : R -> R.
+  Variable tmin : R.
+  Hypothesis rn_mono : forall x y, x <= y -> rn x <= rn y.
+  Hypothesis rn_zero : rn 0 = 0.
+  Hypothesis rn_opp : forall x, rn (- x) = - rn x.
+  Hypothesis tmin_pos : 0 < tmin.
+
+  Lemma rcp_safe_arg_g_spec x :
+    tmin <= Rabs (rcp_safe_arg_g tmin x) /\
+    (0 <= x -> 0 < rcp_safe_arg_g tmin x) /\ (x < 0 -> rcp_safe_arg_g tmin x < 0).
+  Proof.
+    unfold rcp_safe_arg_g.
+    destruct (Rlt_bool_spec (Rabs x) tmin) as [L | G].
+    - destruct (Rle_bool_spec 0 x) as [P | N].
+      + rewrite (Rabs_pos_eq tmin) by lra. repeat split; lra.
+      + rewrite Rabs_Ropp, (Rabs_pos_eq tmin) by lra. repeat split; lra.
+    - split; [exact G |]. split; [| intro N; exact N].
+      intro P. destruct (Req_dec x 0) as [E | E]; [rewrite E, Rabs_R0 in G; lra | lra].
+  Qed.
+
+  Lemma rcp_g_sign_bound a : tmin <= Rabs a -> 0 <= rcp_g rn a * a /\ Rabs (rcp_g rn a) <= rn (/ tmin).
+  Proof.
+    intro Ha. unfold rcp_g.
+    assert (Ha0 : a <> 0) by (intro E; rewrite E, Rabs_R0 in Ha; lra).
+    assert (Hi : 0 < / tmin) by (apply Rinv_0_lt_compat; exact tmin_pos).
+    destruct (Rdichotomy _ _ Ha0) as [N | P].
+    - rewrite (Rabs_left a N) in Ha.
+      assert (H1 : - / tmin <= 1 / a <= 0).
+      { unfold Rdiv. rewrite Rmult_1_l. split.
+        - replace (/ a) with (- / (- a)) by (field; lra). apply Ropp_le_contravar.
+          apply Rinv_le_contravar; lra.
+        - apply Rlt_le, Rinv_lt_0_compat. exact N. }
+      assert (H2 : - rn (/ tmin) <= rn (1 / a) <= 0).
+      { split; [rewrite <- rn_opp; apply rn_mono; lra | rewrite <- rn_zero; apply rn_mono; lra]. }
+      split; [nra |]. rewrite Rabs_left1 by lra. lra.
+    - rewrite (Rabs_pos_eq a) in Ha by lra.
+      assert (H1 : 0 <= 1 / a <= / tmin).
+      { unfold Rdiv. rewrite Rmult_1_l. split.
+        - apply Rlt_le, Rinv_0_lt_compat. exact P.
+        - apply Rinv_le_contravar; lra. }
+      assert (H2 : 0 <= rn (1 / a) <= rn (/ tmin)).
+      { split; [rewrite <- rn_zero; apply rn_mono; lra | apply rn_mono; lra]. }
+      split; [nra |]. rewrite Rabs_pos_eq by lra. lra.
+  Qed.
+
+  Lemma rcp_safe_g_sign x :
+    tmin <= Rabs (rcp_safe_arg_g tmin x) /\
+    (0 <= x -> 0 < rcp_safe_arg_g tmin x) /\ (x < 0 -> rcp_safe_arg_g tmin x < 0) /\
+    0 <= rcp_safe_g rn tmin x * x /\ Rabs (rcp_safe_g rn tmin x) <= rn (/ tmin).
+  Proof.
+    destruct (rcp_safe_arg_g_spec x) as (A1 & A2 & A3).
+    destruct (rcp_g_sign_bound _ A1) as [B1 B2]. unfold rcp_safe_g.
+    repeat split; try assumption.
+    destruct (Rlt_or_le x 0) as [N | P]; [specialize (A3 N) | specialize (A2 P)]; nra.
+  Qed.
+End AnyPrecisionProofs.
+
+(* binary64 instance: rcp_safe(double) *)
+Local Instance prec53 : Prec_gt_0 53.
+Proof. unfold Prec_gt_0. reflexivity. Qed.
+Lemma rnd64_mono x y : x <= y -> rnd64 x <= rnd64 y.
+Proof. intro H. apply round_le; [typeclasses eauto | typeclasses eauto | exact H]. Qed.
+Lemma rnd64_0 : rnd64 0 = 0.
+Proof. apply round_0. typeclasses eauto. Qed.
+Lemma rnd64_opp x : rnd64 (- x) = - rnd64 x.
+Proof. apply round_NE_opp. Qed.
+Lemma rnd64_bpow e : (-1074 <= e)%Z -> rnd64 (bpow radix2 e) = bpow radix2 e.
+Proof.
+  intro He. apply round_generic; [typeclasses eauto |].
+  apply generic_format_bpow. unfold FLT_exp. lia.
+Qed.
+Lemma rnd64_1 : rnd64 1 = 1.
+Proof. exact (rnd64_bpow 0 ltac:(lia)). Qed.
+Lemma rnd_opp x : rnd (- x) = - rnd x.
+Proof. apply round_NE_opp. Qed.
+
+Lemma rcp_safe_double_sign x :
+  DBL_MIN <= Rabs (rcp_safe_arg_g DBL_MIN x) /\
+  (0 <= x -> 0 < rcp_safe_arg_g DBL_MIN x) /\ (x < 0 -> rcp_safe_arg_g DBL_MIN x < 0) /\
+  0 <= rcp_safe_g rnd64 DBL_MIN x * x /\ Rabs (rcp_safe_g rnd64 DBL_MIN x) <= bpow radix2 1022.
+Proof.
+  pose proof (rcp_safe_g_sign rnd64 DBL_MIN rnd64_mono rnd64_0 rnd64_opp (bpow_gt_0 radix2 (-1022)) x) as H.
+  replace (rnd64 (/ DBL_MIN)) with (bpow radix2 1022) in H; [exact H |].
+  unfold DBL_MIN. rewrite <- bpow_opp. symmetry. apply rnd64_bpow. lia.
+Qed.
+
 (* ------------------------------------------------------------------ sqrt *)
 Lemma sqrt_bpow_even k : sqrt (bpow radix2 (k + k)) = bpow radix2 k.
 Proof. rewrite bpow_plus. apply sqrt_square. apply bpow_ge_0. Qed.
